@@ -119,6 +119,9 @@ def gen_plan(seed, tier="quick", variant=None):
     nf = rng.choice([0, 1, 2, 3, 5]) if variant not in ("sweep", "close_refresh") else rng.choice([0, 0, 1])
     if variant == "close_refresh":
         nf = 0
+    if variant == "close" and rng.random() < 0.5:
+        # broker clients sitting in reconnect back-off (after failures that came back at once, later, or never) when close() lands
+        faults.append({"kind": "connect", "nth": rng.randint(1, 4), "what": rng.choice(["sync_fail", "sync_fail", "refused", "dns"]), "count": rng.choice([3, 8, 50])})
     for _ in range(nf):
         kinds = ["error", "silent", "cut_before", "cut_mid", "cut_after", "delay", "delay", "refuse", "broker_down", "move_leader", "stale", "readdress",
                  "add_topic", "remove_broker", "delete_topic", "shrink_topic"]
@@ -152,7 +155,7 @@ def gen_plan(seed, tier="quick", variant=None):
             if faults[-1]["mode"] == "neg_msg_size":
                 faults[-1]["api"] = 1
         elif kind in ("refuse", "blackhole"):
-            faults.append({"kind": "connect", "nth": rng.randint(0, 8), "what": rng.choice(["refused", "blackhole", "dns"]) if kind == "refuse" else "blackhole",
+            faults.append({"kind": "connect", "nth": rng.randint(0, 8), "what": rng.choice(["refused", "blackhole", "dns", "sync_fail"]) if kind == "refuse" else "blackhole",
                            "count": rng.choice([1, 2, 5])})
         elif kind == "broker_down" and nb > 1:
             n = rng.randint(1, nb)
@@ -187,6 +190,24 @@ def gen_plan(seed, tier="quick", variant=None):
         for j in range(rng.randint(1, 3)):
             ops.append({"t": round(horizon * (1.0 + 0.2 * j) + rng.random() * 0.05, 6), "op": "call", "id": 60 + j,
                         "kind": rng.choice(["metadata", "metadata", "metadata_all"]), "tps": [], "topics": sorted(set(tp[0] for tp in all_tps))})
+    if variant == "timeout" and rng.random() < 0.6:
+        # several requests share connections while a broker goes silent for a few of them: the oldest times out first,
+        # the younger ones are still unanswered at that instant
+        cfg["warm"] = True
+        cfg["client"]["timeout_ms"] = tm = rng.choice([200, 1000])
+        t0 = round(0.05 + rng.random() * 0.3, 6)
+        callops = [o for o in ops if o.get("op") == "call"]
+        for i, o in enumerate(callops):
+            o["t"] = round(t0 + i * tm / 1000.0 * rng.choice([0.05, 0.2]), 6)
+            if o["kind"] not in ("fetch", "offsets", "produce", "offset_fetch"):
+                o["kind"] = rng.choice(["offsets", "offset_fetch", "fetch"])
+                o.setdefault("group", GROUPS[0])
+                o.setdefault("offset", 0)
+                o.update(time=-1, max_offsets=1, max_bytes=4096, max_wait=0, min_bytes=1)
+            if o["kind"] == "fetch":
+                o["max_wait"] = 0
+            o["tps"] = [tp for tp in o["tps"] if tp[0] != "nosuch"] or [all_tps[0]]
+        faults.append({"api": None, "node": rng.choice([None, None] + list(range(1, nb + 1))), "nth": rng.randint(0, 2), "act": "silent", "count": rng.choice([1, 2, 3])})
     t_end = round(max([horizon * 1.6] + [f["t"] for f in faults if "t" in f] + [o["t"] for o in ops if "t" in o]) + 0.01, 6)
     return {"family": FAMILY, "seed": seed, "tier": tier, "cfg": cfg, "ops": ops, "faults": faults, "t_end": t_end}
 
@@ -547,6 +568,75 @@ def _oracles(w, plan, res, client, calls, state, cache_versions, unresolved, tim
                         "%s call %d issued %.4f resolved %.4f, bound %.3f" % (c["kind"], c["id"], c["t"], wd.t, bound))
         elif c["kind"] == "join":
             res.probe("join_bounded_by_35s_minimum")
+    # disconnect-on-timeout: the silent connection is dropped in the timeout instant; what else was unanswered on it is re-sent
+    if cfg["client"].get("disconnect_on_timeout") and not garbage_used:
+        lose_t, up_t = {}, {}
+        for e in sim.log:
+            if e[2] == "c_lose":
+                lose_t.setdefault(e[3], e[1])
+            elif e[2] == "connected":
+                up_t[e[6]] = e[1]
+        answered = {}
+        for e in cl.reqlog:
+            if e.get("delivered_t") is not None:
+                answered[(e["cid"], e["corr"])] = e["delivered_t"]
+        close_t = state.get("close_t")
+        late = cfg.get("late_timers", 0.0)
+        conn_by_id = {cc.cid: cc for cc in net.conns}
+        for c in calls.values():
+            wd = c["w"]
+            akey = dict(APIKEY, heartbeat=12, join=11).get(c["kind"])
+            if wd is None or not wd.fires or wd.ok is not False or akey is None:
+                continue
+            timed = isinstance(wd.value, RequestTimedOutError)
+            if isinstance(wd.value, FailedPayloadsError):
+                try:
+                    timed = any(isinstance(getattr(f_, "value", f_), RequestTimedOutError) for _p, f_ in wd.value.failed_payloads)
+                except Exception:
+                    timed = False
+            if not timed:
+                continue
+            T = wd.t
+            if close_t is not None and close_t <= T:
+                continue
+            mine = [f for f in written if f["hdr"]["key"] == akey and c["t"] - 1e-9 <= f["t"] <= c["t"] + 1e-9
+                    and not (f["hdr"]["key"] == 0 and f["body"].get("acks") == 0)
+                    and answered.get((f["cid"], f["hdr"]["correlation"]), T + 1) > T and lose_t.get(f["cid"], T + 1) >= T - 1e-9
+                    and (conn_by_id[f["cid"]].lost_at is None or conn_by_id[f["cid"]].lost_at >= T - 1e-9)]
+            conns_ = sorted(set(f["cid"] for f in mine))
+            if len(conns_) != 1:
+                continue  # not written at once (no connection yet), or several brokers: not attributable black-box
+            k = conns_[0]
+            res.oblige("C11")
+            if not (k in lose_t and T - 1e-9 <= lose_t[k] <= T + 1e-9):
+                res.violate("C11", "C11:silent-connection-not-dropped-on-timeout", "call %d timed out at %.6f; connection %d was %s" % (
+                    c["id"], T, k, "closed at %.6f" % lose_t[k] if k in lose_t else "kept"))
+                continue
+            res.probe("disconnected_on_timeout")
+            host_port = [(f["host"], f["port"]) for f in written if f["cid"] == k][0]
+            later = sorted(cc.cid for cc in net.conns if cc.cid > k and (cc.host, cc.port) == host_port and up_t.get(cc.cid, -1.0) >= T)
+            if not later:
+                continue
+            k2 = later[0]
+            if close_t is not None and close_t <= up_t[k2] + 0.01:
+                continue
+            for f in written:
+                if f["cid"] != k or f in mine or f["t"] > T:
+                    continue
+                x = f["hdr"]["correlation"]
+                if answered.get((k, x), T + 1) <= T:
+                    continue
+                if f["hdr"]["key"] == 0 and f["body"].get("acks") == 0:
+                    continue  # expects no reply: written once, never again
+                if f["t"] + timeout <= up_t[k2] + 0.01 or f["t"] + timeout <= T + 1e-9:
+                    continue  # its own deadline passes before the new connection is up
+                res.oblige("C11")
+                if not any(g["cid"] == k2 and g["hdr"]["correlation"] == x for g in written):
+                    res.violate("C11", "C11:unanswered-request-not-resent-after-timeout-disconnect",
+                                "request %d (%s) written on connection %d at %.6f was unanswered when the connection was dropped at %.6f; connection %d (up %.6f) never carried it" % (
+                                    x, kwire.API_NAMES.get(f["hdr"]["key"]), k, f["t"], T, k2, up_t[k2]))
+                else:
+                    res.probe("resent_after_timeout_disconnect")
     # ---------------- C07: routing and accounting ----------------
     for c in calls.values():
         if c["kind"] not in APIKEY or c["w"] is None or not c["w"].fires or c["after_close"] or garbage_used:
@@ -758,6 +848,19 @@ def _check_c05(w, res, calls, APIKEY):
                 hw = getattr(r, "highwaterMark", None)
                 if hw is not None and hw != p["hwm"]:
                     res.violate("C05", "C05:fetch-high-watermark-differs", "decoded %r encoded %r" % (hw, p["hwm"]))
+    # a call must not fail *decoding* when every response the broker sent in the run was well formed
+    malformed = any(k in ("rule_garbage", "hostile_message_size", "rule_cut_mid", "corrupt_stored_message") for k in w.net.fault_counts)
+    if not malformed:
+        for c in calls.values():
+            wd = c["w"]
+            if wd is None or not wd.fires or wd.ok:
+                continue
+            res.oblige("C05")
+            # (argument validation raises ValueError/TypeError before anything is sent; those are not decoding)
+            if wd.err in ("BufferUnderflowError", "ProtocolError", "ChecksumError", "InvalidMessageError", "UnsupportedCodecError", "error", "IndexError",
+                          "UnicodeDecodeError"):
+                res.violate("C05", "C05:well-formed-response-not-decoded:%s:%s" % (c["kind"], wd.err), "call %s failed with %r although no malformed byte was sent" % (
+                    c["id"], wd.value))
     # metadata cache content versus the metadata frames is C08's job; ApiVersions:
     for e in by_key.get(kwire.API_VERSIONS, []):
         client = w.clients["p0"]
